@@ -128,6 +128,13 @@ func ohcOf(attrs []Attr) (string, bool) {
 	return fmt.Sprintf("%s/%#x", dst, teid), true
 }
 
+func (s *Sim) applyLateFwd(ctx *StepCtx) {
+	for _, sr := range ctx.lateFwd {
+		s.model.noteReportForwarded(sr)
+	}
+	ctx.lateFwd = nil
+}
+
 func (s *Sim) checkBuffers(ctx *StepCtx) {
 	if !s.oracleOn("C13") && !s.oracleOn("C14") {
 		return
@@ -307,6 +314,9 @@ func (s *Sim) checkBuffers(ctx *StepCtx) {
 			x.Buf[uint16(ref.ID)] = nil
 		}
 	}
+	// notifications handed over while the event loop was inside this message's turn are
+	// served after it: the model takes them in after the message's effects
+	s.applyLateFwd(ctx)
 
 	gtpuErr := false
 	for _, o := range ctx.GTPU {
